@@ -1,12 +1,14 @@
 import Victron.Model.Proto
 import Victron.Model.FileLog
 import Victron.Proofs.Logging
+import Victron.Proofs.Replay
 /-
   C18 — Logging is transparent and the I/O log replays.
   Model: `Vd` with `ioLog` / `dbg` configuration, the tx/rx capture buffers and emitted lines exactly as
   io.go / logging.go keep them; `FileLog.close` (fileLogger.go). The debug log's text is not modelled —
-  only its absence of effect is claimed. The replay clause is checked on the real code by the harness
-  (every single-exchange line is replayed through a lookup port), see DESIGN.md.
+  only its absence of effect is claimed. The replay clause is a theorem about the model (`*_replay`: the
+  lookup port is a port that answers the logged transmission with the logged reception) and is also
+  exercised on the real code by the harness (every single-exchange line is replayed), see DESIGN.md.
 -/
 namespace Victron.C18
 open Victron
@@ -84,6 +86,106 @@ theorem no_logger_no_line (σ : Vd) (idles : List Bool) (addr : Nat) (hio : σ.i
   unfold Vd.getUint Vd.veCommandGet Vd.lineEnd
   simp only [hi, hio]
   exact hl
+
+/-- **The I/O log replays.** A typed register read (I/O logger on, capture buffers empty) that completed in a
+    single exchange — exactly one frame handed to the port — emits the line `⟨tx, rx⟩` where `tx` is the Get
+    frame of the register, and on *any* driver whose port answers its next transmission with `rx`
+    (`ReplayReady`: nothing pending, no faults; in particular a freshly constructed driver on a lookup port
+    holding the pair) the same read returns the same result — value or device error alike, whatever that
+    driver's logger configuration and idle pattern. Since the replaying driver transmits `tx 7 addr` as well,
+    the lookup by transmission hits. -/
+theorem get_replay (σ : Vd) (idles : List Bool) (addr : Nat) (hio : σ.ioLog = true) (hrx : σ.rxBuf = [])
+    (hone : (σ.veCommandGet idles addr).1.port.nW = σ.port.nW + 1)
+    (σr : Vd) (hready : σr.ReplayReady (σ.veCommandGet idles addr).1.rxBuf) (idles' : List Bool) :
+    (σr.veCommandGet idles' addr).2 = (σ.veCommandGet idles addr).2 ∧
+    σ.TxInv (σ.veCommandGet idles addr).1 [tx 7 addr] := by
+  obtain ⟨i, is, hi, his⟩ := idles8_cons idles
+  obtain ⟨i', is', hi', _⟩ := idles8_cons idles'
+  unfold Vd.veCommandGet at hone hready ⊢
+  rw [hi] at hone hready ⊢
+  rw [hi']
+  exact Vd.veCommandGetL_replay i is his σ addr hio hrx hone σr hready i' is'
+
+/-- the line a single-exchange `GetUint` emits, and its replay -/
+theorem uint_replay (σ : Vd) (idles : List Bool) (addr : Nat)
+    (hio : σ.ioLog = true) (htx : σ.txBuf = []) (hrx : σ.rxBuf = [])
+    (hone : (σ.getUint idles addr).1.port.nW = σ.port.nW + 1) :
+    ∃ rx, (σ.getUint idles addr).1.lines = ⟨tx 7 addr, rx⟩ :: σ.lines ∧
+      ∀ (σr : Vd) (idles' : List Bool), σr.ReplayReady rx →
+        (σr.getUint idles' addr).2 = (σ.getUint idles addr).2 := by
+  have hone' : (σ.veCommandGet idles addr).1.port.nW = σ.port.nW + 1 := by
+    unfold Vd.getUint Vd.lineEnd at hone; simp only at hone; split at hone <;> exact hone
+  refine ⟨(σ.veCommandGet idles addr).1.rxBuf, ?_, ?_⟩
+  · obtain ⟨_, ⟨_, ht, hi, hl⟩⟩ := get_replay σ idles addr hio hrx hone' (Vd.replayOf _ false false) (Vd.replayOf_ready _ _ _) []
+    unfold Vd.getUint Vd.lineEnd
+    simp only [hi, hio, if_true]
+    rw [ht, hl, hio, htx]; simp
+  · intro σr idles' hready
+    have := (get_replay σ idles addr hio hrx hone' σr hready idles').1
+    unfold Vd.getUint; simp only; rw [this]
+
+theorem int_replay (σ : Vd) (idles : List Bool) (addr : Nat)
+    (hio : σ.ioLog = true) (htx : σ.txBuf = []) (hrx : σ.rxBuf = [])
+    (hone : (σ.getInt idles addr).1.port.nW = σ.port.nW + 1) :
+    ∃ rx, (σ.getInt idles addr).1.lines = ⟨tx 7 addr, rx⟩ :: σ.lines ∧
+      ∀ (σr : Vd) (idles' : List Bool), σr.ReplayReady rx →
+        (σr.getInt idles' addr).2 = (σ.getInt idles addr).2 := by
+  have hone' : (σ.veCommandGet idles addr).1.port.nW = σ.port.nW + 1 := by
+    unfold Vd.getInt Vd.lineEnd at hone; simp only at hone; split at hone <;> exact hone
+  refine ⟨(σ.veCommandGet idles addr).1.rxBuf, ?_, ?_⟩
+  · obtain ⟨_, ⟨_, ht, hi, hl⟩⟩ := get_replay σ idles addr hio hrx hone' (Vd.replayOf _ false false) (Vd.replayOf_ready _ _ _) []
+    unfold Vd.getInt Vd.lineEnd
+    simp only [hi, hio, if_true]
+    rw [ht, hl, hio, htx]; simp
+  · intro σr idles' hready
+    have := (get_replay σ idles addr hio hrx hone' σr hready idles').1
+    unfold Vd.getInt; simp only; rw [this]
+
+theorem string_replay (σ : Vd) (idles : List Bool) (addr : Nat)
+    (hio : σ.ioLog = true) (htx : σ.txBuf = []) (hrx : σ.rxBuf = [])
+    (hone : (σ.getString idles addr).1.port.nW = σ.port.nW + 1) :
+    ∃ rx, (σ.getString idles addr).1.lines = ⟨tx 7 addr, rx⟩ :: σ.lines ∧
+      ∀ (σr : Vd) (idles' : List Bool), σr.ReplayReady rx →
+        (σr.getString idles' addr).2 = (σ.getString idles addr).2 := by
+  have hone' : (σ.veCommandGet idles addr).1.port.nW = σ.port.nW + 1 := by
+    unfold Vd.getString Vd.lineEnd at hone; simp only at hone; split at hone <;> exact hone
+  refine ⟨(σ.veCommandGet idles addr).1.rxBuf, ?_, ?_⟩
+  · obtain ⟨_, ⟨_, ht, hi, hl⟩⟩ := get_replay σ idles addr hio hrx hone' (Vd.replayOf _ false false) (Vd.replayOf_ready _ _ _) []
+    unfold Vd.getString Vd.lineEnd
+    simp only [hi, hio, if_true]
+    rw [ht, hl, hio, htx]; simp
+  · intro σr idles' hready
+    have := (get_replay σ idles addr hio hrx hone' σr hready idles').1
+    unfold Vd.getString; simp only; rw [this]
+
+/-- `Ping` and the device-id query are single exchanges by construction; when they obtained a response, the
+    logged pair replays to the same result -/
+theorem deviceId_replay (σ : Vd) (idle : Bool) (hio : σ.ioLog = true) (hrx : σ.rxBuf = [])
+    (body : Bytes) (hsome : (σ.sendReceive idle 4 []).2 = some body)
+    (σr : Vd) (hready : σr.ReplayReady (σ.sendReceive idle 4 []).1.rxBuf) (idle' : Bool) :
+    (σr.getDeviceId idle').2 = (σ.getDeviceId idle).2 := by
+  have hr := Vd.sendReceive_replay σ idle 4 [] body hio hrx hsome σr hready idle'
+  unfold Vd.getDeviceId Vd.veCommand
+  simp only
+  have hp : paramFor 4 0 = [] := by decide
+  rw [hp, hr, hsome]
+
+theorem ping_replay (σ : Vd) (idle : Bool) (hio : σ.ioLog = true) (hrx : σ.rxBuf = [])
+    (body : Bytes) (hsome : (σ.sendReceive idle 1 []).2 = some body)
+    (σr : Vd) (hready : σr.ReplayReady (σ.sendReceive idle 1 []).1.rxBuf) (idle' : Bool) :
+    (σr.ping idle').2 = (σ.ping idle).2 := by
+  have hr := Vd.sendReceive_replay σ idle 1 [] body hio hrx hsome σr hready idle'
+  unfold Vd.ping
+  simp only
+  rw [hr, hsome]
+
+/-- non-vacuity of the replay theorems: a logged single-exchange read and its replay on a fresh driver -/
+example :
+    let σ : Vd := { port := { replies := [[[1, 2, 3] ++ frameOf (getResponseBody 1 0 [5]) ++ [7]]] }, ioLog := true }
+    (σ.getUint [true] 1).1.port.nW = σ.port.nW + 1 ∧
+    (σ.getUint [true] 1).1.lines = [⟨tx 7 1, [1, 2, 3] ++ frameOf (getResponseBody 1 0 [5])⟩] ∧
+    ((Vd.replayOf ([1, 2, 3] ++ frameOf (getResponseBody 1 0 [5])) false false).getUint [] 1).2 = .ok 5 ∧
+    (σ.getUint [true] 1).2 = .ok 5 := by decide
 
 /-- **File logger.** After `Close` the file holds its previous content followed by every line, in order,
     each terminated by a newline. -/
